@@ -107,3 +107,50 @@ Example hunting_the_router_is_the_callers_doing :
   outputs c init_state [StartHunt (mkAddr (router_mac c) (router_ip c)); Lookup 0; Check 0; Send 0]
   = [[]; []; []; [announce c (router_mac c)]].
 Proof. vm_compute. reflexivity. Qed.
+
+(* ---------------------------------------------------------------- *)
+(* "... restoring the router's real MAC, AFTER WHICH no further forged packet is sent to it": is the restore the
+   last frame to m?  Not in every interleaving: a frame decided under the lock BEFORE StopHunt (a spoof reply in
+   flight; a second loop's armed announcement) can be written AFTER the loop's restore. *)
+
+Theorem restore_is_last_refuted :
+  exists c evs m,
+    cfg_ok c /\ hunted (final c init_state evs) m = false /\
+    (* ... StopHunt m; the loop's whole iteration: restore; then the reply decided before StopHunt is written *)
+    outputs c init_state evs =
+      [[]; []; []; [announce c m]; []; []; []; []; [restore c m];
+       [mkFrame 2 m (host_mac c) (router_ip c) m 3232235522]] /\
+    nth_error evs 5 = Some (StopHunt m) /\ none_of (is_start_of m) (skipn 6 evs).
+Proof.
+  exists wit_cfg,
+    [StartHunt wit_a1; Lookup 0; Check 0; Send 0;
+     RxArp (mkPkt 1 wit_m1 wit_m1 3232235522 0 3232235531);
+     StopHunt wit_m1; Lookup 0; Check 0; Send 0; RxReply 0], wit_m1.
+  split; [exact wit_cfg_ok|]. vm_compute. repeat split; reflexivity.
+Qed.
+
+(* the same with a second loop: StartHunt, lookup (armed), StopHunt, StartHunt, StopHunt: loop 1 restores, then
+   loop 0 writes the announcement it decided before the FIRST StopHunt *)
+Theorem restore_is_last_refuted_two_loops :
+  exists c evs m,
+    cfg_ok c /\ hunted (final c init_state evs) m = false /\
+    outputs c init_state evs = [[]; []; []; []; []; []; []; [restore c m]; []; [announce c m]] /\
+    nth_error evs 4 = Some (StopHunt m) /\ none_of (is_start_of m) (skipn 5 evs).
+Proof.
+  exists wit_cfg,
+    [StartHunt wit_a1; Lookup 0; StopHunt wit_m1; StartHunt wit_a1; StopHunt wit_m1;
+     Lookup 1; Check 1; Send 1; Check 0; Send 0], wit_m1.
+  split; [exact wit_cfg_ok|]. vm_compute. repeat split; reflexivity.
+Qed.
+
+(* what does hold: if nothing is armed for m when it leaves the hunt list (no loop between its lock section and
+   its write, no reply in flight), NO forged frame of the handler's own reaches m any more: the restore is last *)
+Theorem restore_is_last_partial : forall c m evs s st e out f,
+  cfg_ok c -> hunted s m = false -> armed c m s = 0%nat -> none_of (is_start_of m) evs ->
+  In (st, e, out) (trace c s evs) -> In f out -> forged c f = true -> caller_forged c e = false ->
+  fedst f <> m.
+Proof.
+  intros c m evs s st e out f Hc Hh Ha Hn Hin Hf Hfg Hcf.
+  pose proof (stale_bound c m evs s Hc Hh Hn) as B.
+  eapply forged_total_zero; eauto. lia.
+Qed.
